@@ -231,6 +231,14 @@ def cases(tier, rng):
     for key in ["C", "F#", "Eb", "a", "c#", "ab", "d", "A", "D"]:
         for num in ["I", "ii", "iii7", "IV", "V7", "bVII", "#ivdim7", "VIm7", "X", "i", "III", "vi7"]:
             yield Case("nc.from_progression", [num, key], "from_progression", kind=("prog",))
+    # removal by name AND octave where the octave numbers of neighbouring notes are not in pitch order (Cb-5 below B#-4)
+    for base, rm in (([["G", 4], ["Cb", 5], ["B#", 4], ["E", 5]], [("B#", 4), ("Cb", 5), ("E", 5), ("G", 4)]),
+                     ([["A", 4], ["Dbb", 5], ["B##", 4], ["F", 5]], [("B##", 4), ("Dbb", 5)]),
+                     ([["Cb", 4], ["B#", 3], ["C", 4], ["B", 4], ["Cb", 5]], [("B#", 3), ("Cb", 5), ("Cb", 4), ("B", 4)])):
+        for nm, o in rm:
+            ops = [["add_list", [["obj", n, q] for n, q in base]], ["remove_name_oct", nm, o]]
+            yield Case("nc.run", [ops], "remove/cross-octave", kind=("run",))
+            yield Case("nc.run", [ops + [["remove_name_oct", nm, o]]], "remove/cross-octave", kind=("run",))
     # slash chords and polychords into a container: a note NAME that occurs twice in the shorthand's notes is voiced twice
     for sh in ["C/E", "Am/C", "G7/B", "C/G", "Dm7/A", "C|G", "Am|C", "C|C", "Dm|G7", "F/F", "CM7/B", "Em|CM7"]:
         yield Case("nc.from_chord", [sh], "from_chord/slash-poly", kind=("chordsh",))
